@@ -573,6 +573,11 @@ func (r *SimRequest) complete(res any, err error) {
 	if r.tm != nil {
 		r.tm.Stop()
 	}
+	// gocbcore marks a request completed (CAS) and then runs the callback: a Cancel() racing in between
+	// finds it completed and returns without a callback, and the callback arrives late
+	if !r.Cancelled {
+		vrt.Yield(-4)
+	}
 	r.Err = err
 	r.Finished = vrt.NowNanos()
 	if r.ag != nil {
